@@ -6,6 +6,7 @@ import (
 	"bufio"
 	"fmt"
 	"os"
+	"os/exec"
 	"strconv"
 	"strings"
 )
@@ -92,7 +93,46 @@ func handleLine(line string) {
 	runOp(f, a)
 }
 
+// runChild re-executes this binary on one case; the child flushes after every line so that output survives os.Exit.
+func runChild(lines []string) {
+	cmd := exec.Command(os.Args[0], "--child")
+	cmd.Stdin = strings.NewReader(strings.Join(lines, "\n") + "\n")
+	outb, err := cmd.Output()
+	text := string(outb)
+	exited := false
+	if err != nil {
+		if ee, ok := err.(*exec.ExitError); ok && ee.ExitCode() == 1 {
+			exited = true
+		}
+	}
+	for _, l := range strings.Split(strings.TrimRight(text, "\n"), "\n") {
+		if strings.Contains(l, "is not a valid instruction") {
+			continue
+		}
+		if l != "" {
+			emit("%s", l)
+		}
+	}
+	if exited {
+		emit("EXIT")
+	}
+}
+
+var flushEveryLine bool
+
 func main() {
+	if len(os.Args) > 1 && os.Args[1] == "--child" {
+		flushEveryLine = true
+		out = bufio.NewWriterSize(os.Stdout, 1<<16)
+		sc := bufio.NewScanner(os.Stdin)
+		sc.Buffer(make([]byte, 1<<20), 1<<26)
+		for sc.Scan() {
+			handleLine(sc.Text())
+			out.Flush()
+		}
+		out.Flush()
+		return
+	}
 	in := os.Stdin
 	if len(os.Args) > 1 {
 		f, err := os.Open(os.Args[1])
@@ -106,7 +146,44 @@ func main() {
 	defer out.Flush()
 	sc := bufio.NewScanner(in)
 	sc.Buffer(make([]byte, 1<<20), 1<<26)
-	for sc.Scan() {
-		handleLine(sc.Text())
+	// cases whose second line is "mayexit" are run in a child process
+	var pending []string
+	inChildCase := false
+	flushChild := func() {
+		if inChildCase && len(pending) > 0 {
+			runChild(pending)
+		}
+		pending = nil
+		inChildCase = false
 	}
+	var prevCase string
+	for sc.Scan() {
+		line := sc.Text()
+		t := strings.TrimSpace(line)
+		if strings.HasPrefix(t, "case ") || t == "case" {
+			flushChild()
+			prevCase = line
+			continue
+		}
+		if prevCase != "" {
+			if t == "mayexit" {
+				inChildCase = true
+				pending = []string{prevCase, line}
+			} else {
+				handleLine(prevCase)
+				handleLine(line)
+			}
+			prevCase = ""
+			continue
+		}
+		if inChildCase {
+			pending = append(pending, line)
+		} else {
+			handleLine(line)
+		}
+	}
+	if prevCase != "" {
+		handleLine(prevCase)
+	}
+	flushChild()
 }
